@@ -205,9 +205,11 @@ class Registry:
                 self.note("text of a container inside an f-string treated as an arbitrary string")
             else:
                 raise Unsupported("f-string piece %s" % type(v).__name__, node)
+        _log_pieces = list(zs)
         fn = eng.S.func("fstr_%d_%s" % (len(zs), "".join(ch if ch.isalnum() else "_" for ch in skeleton)[:30] + "_" + "_".join(str(z.sort()) for z in zs)), *[z.sort() for z in zs], eng.S.Atom)
         r = fn(*zs)
         st.assume(r != eng.S.NONE)
+        st.ghost["fstring_log"] = list(st.ghost.get("fstring_log", [])) + [(r, _log_pieces)]  # which values each f-string was built from (for "the key identifies the node" clauses)
         self.note("f-string %r treated as an injective function of its pieces, distinct from None" % skeleton)
         inv_facts = st.ghost.setdefault("fstr_inj", set())
         tag = str(fn)
